@@ -165,6 +165,10 @@ struct World {
     skip_events: bool,
     /// a call of a `batch` is being observed (the events are those of all its calls together)
     in_batch: bool,
+    /// over-estimates of the streams / bind requests delivered to an endpoint that its application has not
+    /// taken yet (every delivered Connect / Bind counts): below the queue capacity means the receive loop
+    /// is certainly not parked on a full queue
+    backlog: [[usize; 2]; 2],
 }
 
 const NAMES: [&str; 2] = ["A", "B"];
@@ -264,6 +268,7 @@ impl World {
             probe: true,
             skip_events: false,
             in_batch: false,
+            backlog: [[0; 2]; 2],
         };
         for v in &mut w.view {
             v.mux_alive = true;
@@ -415,6 +420,8 @@ impl World {
                     if op == 5 && frame_valid(t[2]) && clean && !lagging && up_e {
                         self.bind_wire[e].insert(id, 1);
                     }
+                    if op == 0 { self.backlog[e][0] += 1; }
+                    if op == 5 { self.backlog[e][1] += 1; }
                 }
             }
         }
@@ -432,6 +439,7 @@ impl World {
                 self.pend[e].clear();
             }
             ("accept", ["stream", h, host, port]) => {
+                self.backlog[e][0] = self.backlog[e][0].saturating_sub(1);
                 let h: usize = h.parse().unwrap();
                 let port: u64 = port.parse().unwrap();
                 let mut hi = HInfo { alive: true, ..HInfo::default() };
@@ -622,6 +630,7 @@ impl World {
                 }
             }
             ("bindnext", ["bindreq", k, _fid, ty, host, port]) => {
+                self.backlog[e][1] = self.backlog[e][1].saturating_sub(1);
                 let k: usize = k.parse().unwrap();
                 let port: u64 = port.parse().unwrap();
                 if clean {
@@ -660,6 +669,18 @@ impl World {
             }
             ("deliver", _) => {
                 if matches!(t[1], "err" | "eof" | "close" | "closeerr" | "err2" | "closemany") {
+                    // C08: the end of the connection is acted on at once — the peer closed or the transport
+                    // failed, the source yields nothing more — without waiting for the application to do
+                    // anything (take a stream, read, …). Judged when the task was certainly not parked on a
+                    // full accept / bind queue, the sink is not held and this is the first such event.
+                    let not_parked = self.backlog[e][0] < self.opts[e].accept_cap && (self.opts[e].bind_cap == 0 || self.backlog[e][1] < self.opts[e].bind_cap);
+                    if !self.view[e].exited && self.view[e].terminated_by.is_none() && !self.sink_blocked[e] && not_parked && !self.in_batch {
+                        *self.mon.entry("exit-at-end/judged").or_insert(0) += 1;
+                        if !evs.split("; ").any(|ev| ev.starts_with("exit ")) {
+                            let msg = format!("endpoint {} was given `{}` (the connection has ended, its source yields nothing more; its receive loop was not waiting on a full queue, its sink accepts messages) and its task did not finish: every pending operation now waits for something the application may never do (events of the step: {})", NAMES[e], t.join(" "), if evs.is_empty() { "none" } else { evs });
+                            self.fail("C08", "end-not-acted-on", msg);
+                        }
+                    }
                     self.view[e].terminated_by = Some(t[1].into());
                     self.faulted = true;
                     self.ep_faulted[e] = true;
@@ -1283,6 +1304,27 @@ fn run_case(r: &mut Rng, focus: Focus, len: usize) -> World {
             match r.below(8) {
                 // a second fault while the wind-down is already running: the peer's Close followed by a
                 // reset of the connection, a receive half that reports its failure twice
+                // the peer opens more streams than this endpoint's accept queue holds and closes right behind
+                // them: the wind-down dispatches Connects it has no room for
+                0 | 1 if matches!(focus, Focus::C08) && r.chance(1, 6) && !w.view[e].exited && !w.view[1 - e].exited
+                    && w.view[1 - e].mux_alive && w.view[1 - e].rng_left >= 12 && w.opts[e].accept_cap <= 2 && !w.sink_blocked[1 - e] => {
+                    while w.deliver_next(e) {}
+                    let n = w.opts[e].accept_cap + 1;
+                    for _ in 0..n {
+                        let req = w.next_req; w.next_req += 1; w.view[1 - e].rng_left -= 4;
+                        let hl = r.range(0, 4) as usize;
+                        w.stim(1 - e, &[s("open"), s(req), hexd(&r.bytes(hl)), s(1000 + req)]);
+                    }
+                    let mut t = vec![s("deliver"), s("closemany")];
+                    for _ in 0..3 {
+                        match w.wire[1 - e].front() {
+                            Some(m) if !matches!(m.as_str(), "ping" | "pong" | "close") => { t.push(w.wire[1 - e].pop_front().unwrap()); }
+                            _ => break,
+                        }
+                    }
+                    w.exchanged = true;
+                    w.stim(e, &t);
+                }
                 // the peer's Close with up to three of its frames right behind it (whatever it has on the
                 // wire: answers to this endpoint's requests, data), dispatched by the wind-down
                 0 | 1 if matches!(focus, Focus::C08 | Focus::C12) && r.chance(1, 3) && w.wire[1 - e].front().is_some_and(|m| !matches!(m.as_str(), "ping" | "pong" | "close")) => {
